@@ -5,6 +5,7 @@ package lexgen
 
 import (
 	"fmt"
+	"strconv"
 	"strings"
 	"unicode"
 	"unicode/utf8"
@@ -12,11 +13,11 @@ import (
 
 // Kinds of the reference grammar.
 const (
-	KWord    = "word"    // keyword or bare identifier (classification is by list)
-	KQIdent  = "qident"  // "quoted identifier"
-	KBIdent  = "bident"  // `backticked identifier`
+	KWord    = "word"   // keyword or bare identifier (classification is by list)
+	KQIdent  = "qident" // "quoted identifier"
+	KBIdent  = "bident" // `backticked identifier`
 	KNumber  = "number"
-	KString  = "string"  // '...' and $tag$...$tag$
+	KString  = "string" // '...' and $tag$...$tag$
 	KPlace   = "placeholder"
 	KOp      = "op"
 	KPunct   = "punct"
@@ -237,6 +238,16 @@ func readSingle(s string, i int) (string, int, error) {
 				b.WriteByte('\r')
 			case 't':
 				b.WriteByte('\t')
+			case 'u':
+				if j+6 > len(s) {
+					return "", 0, fmt.Errorf("incomplete \\u escape at %d", j)
+				}
+				v, err := strconv.ParseUint(s[j+2:j+6], 16, 32)
+				if err != nil {
+					return "", 0, fmt.Errorf("bad \\u escape at %d", j)
+				}
+				b.WriteRune(rune(v))
+				j += 4
 			default:
 				return "", 0, fmt.Errorf("undocumented escape \\%c at %d", s[j+1], j)
 			}
